@@ -1,6 +1,7 @@
 #!/bin/bash
 # Regression over all kept seeded changes: each seeded/<ID>[-n]/patch.diff is applied in a private lane (never /repo) and the quick check
 # of ITS OWN property must report a violation (exit 1).   usage: seed_regress.sh <lane> <k> <n>   (this process handles seeds k mod n)
+# env SEEDS="C01-2 B08-9" restricts the run to these seeds; HARNESS_SRC=/tmp/verif_snapshot (see seedlane.sh snapshot) freezes the harness.
 # env ONLY=C01 restricts the run to the seeds whose owning check is C01.
 # Output: one line per seed "<seed> <own check> exit=<code>"; summary at the end. Lane is left in place (remove with seedlane.sh <lane> --remove).
 lane=$1; k=${2:-0}; n=${3:-1}
@@ -8,6 +9,7 @@ cd "$(dirname "$0")/.." || exit 2
 i=0; bad=0; tot=0
 for d in $(ls -d seeded/C* seeded/A* seeded/B* seeded/D* seeded/E* seeded/F* 2>/dev/null | sort); do
   s=$(basename $d); id=${s%%-*}
+  if [ -n "${SEEDS:-}" ] && ! echo " $SEEDS " | grep -q " $s "; then continue; fi
   if [ $((i % n)) -eq $k ]; then
     # the check expected to catch it: the seed's own property, unless meta.json records another owner (e.g. an SDK change written
     # against C09 is C20's); a signature-preserving port (patch_compat.diff) is used where the original stops the harness building
